@@ -724,6 +724,103 @@ func runHistory(r *rand.Rand, o *hout.Out, idx int) {
 	}
 }
 
+// delayHandler lets the peer's answer arrive while the local Logout is still inside Send:
+// the interleaving "answer dispatched before Logout() has finished" (C15).
+type delayHandler struct {
+	*simplefixgo.DefaultHandler
+	mu       sync.Mutex
+	onLogout func()
+}
+
+func (d *delayHandler) Send(m simplefixgo.SendingMessage) error {
+	err := d.DefaultHandler.Send(m)
+	d.mu.Lock()
+	f := d.onLogout
+	if m.MsgType() == "5" {
+		d.onLogout = nil
+	} else {
+		f = nil
+	}
+	d.mu.Unlock()
+	if f != nil {
+		f()
+		time.Sleep(30 * time.Millisecond)
+	}
+	return err
+}
+
+func raceLogout(r *rand.Rand, o *hout.Out, useStop bool) {
+	dh := &delayHandler{DefaultHandler: simplefixgo.NewAcceptorHandler(context.Background(), "35", 64)}
+	store := memory.NewStorage()
+	closeAfter := 2 * time.Second
+	s, err := session.NewAcceptorSession(makeOpts(), dh, &session.LogonSettings{LogonTimeout: time.Second, CloseTimeout: closeAfter,
+		HeartBtLimits: &session.IntLimits{Min: 1, Max: 600}}, func(*session.LogonSettings) error { return nil }, store, store)
+	if err != nil {
+		panic(err)
+	}
+	var evMu sync.Mutex
+	logoutEvents := 0
+	s.OnChangeState(utils.EventLogout, func() bool { evMu.Lock(); logoutEvents++; evMu.Unlock(); return true })
+	sig := make(chan struct{}, 4)
+	dh.HandleIncoming("ZZ", func([]byte) bool { sig <- struct{}{}; return true })
+	_ = s.Run()
+	go func() { _ = dh.Run() }()
+	feed := func(b []byte) {
+		dh.ServeIncoming(b)
+		dh.ServeIncoming(sentinel)
+		select {
+		case <-sig:
+		case <-time.After(3 * time.Second):
+		}
+	}
+	feed(frame(body([]fld{{"35", "A"}, {"49", "PEER"}, {"56", "ME"}, {"34", "1"}, {"52", "20240101-00:00:00.000"}, {"98", "0"}, {"108", "500"}})))
+	for len(dh.Outgoing()) > 0 {
+		<-dh.Outgoing()
+	}
+	answer := frame(body([]fld{{"35", "5"}, {"49", "PEER"}, {"56", "ME"}, {"34", "2"}, {"52", "20240101-00:00:00.000"}}))
+	dh.mu.Lock()
+	dh.onLogout = func() { dh.ServeIncoming(answer) }
+	dh.mu.Unlock()
+	t0 := time.Now()
+	if useStop {
+		_ = s.Stop()
+	} else {
+		_ = s.Logout()
+	}
+	dh.ServeIncoming(sentinel)
+	select {
+	case <-sig:
+	case <-time.After(3 * time.Second):
+	}
+	logouts := 0
+	for len(dh.Outgoing()) > 0 {
+		m := <-dh.Outgoing()
+		if _, f := render(m); f["35"] == "5" {
+			logouts++
+		}
+	}
+	evMu.Lock()
+	ev := logoutEvents
+	evMu.Unlock()
+	kind := "Logout()"
+	if useStop {
+		kind = "Stop()"
+	}
+	if logouts != 1 || ev != 1 || s.IsLogged() {
+		o.Fail("C15", "answer-during-own-logout-mishandled", fmt.Sprintf("%s with the peer's answer dispatched before it returned: %d Logouts sent, %d logout events, logged=%v", kind, logouts, ev, s.IsLogged()))
+	}
+	if useStop {
+		select {
+		case <-s.Context().Done():
+		case <-time.After(closeAfter / 2):
+			o.Fail("C15", "stop-not-ended-by-peer-answer", fmt.Sprintf("%s: context still alive %v after the answer (close timeout %v)", kind, time.Since(t0), closeAfter))
+		}
+	}
+	o.Nontrivial("C15", "answer-during-"+kind)
+	o.Count("ev.race-logout")
+	dh.Stop()
+}
+
 func min(a, b int) int {
 	if a < b {
 		return a
@@ -741,5 +838,8 @@ func main() {
 	defer o.Close()
 	for i := 0; i < *n; i++ {
 		runHistory(r, o, i)
+		if i%10 == 0 {
+			raceLogout(r, o, i%20 == 0)
+		}
 	}
 }
